@@ -44,22 +44,41 @@ Z1, Z2, ZT = Elt('G1'), Elt('G2'), Elt('GT')
 
 
 # ---------------------------------------------------------------- condition matchers
-def eq(conds, a, b):
-    """outcome of the comparison a == b on the path (from == / != tests in either operand order), or None"""
+def order(conds, a, b):
+    """what the comparisons of a with b on the path (any of == != < <= > >=, either operand order) leave possible: a subset of
+    {'lt', 'eq', 'gt'} (all three when the two are not compared)"""
+    poss = {'lt', 'eq', 'gt'}
+    sets = {'==': {'eq'}, '!=': {'lt', 'gt'}, '<': {'lt'}, '<=': {'lt', 'eq'}, '>': {'gt'}, '>=': {'gt', 'eq'}}
+    flip = {'lt': 'gt', 'gt': 'lt', 'eq': 'eq'}
     for (k, lab) in conds:
-        if k[0] == 'cmp' and k[1] in ('==', '!=') and {k[2], k[3]} == {a, b}:
-            return lab if k[1] == '==' else (not lab)
+        if k[0] != 'cmp' or k[1] not in sets:
+            continue
+        if (k[2], k[3]) == (a, b):
+            st = set(sets[k[1]])
+        elif (k[2], k[3]) == (b, a):
+            st = {flip[x] for x in sets[k[1]]}
+        else:
+            continue
+        poss &= st if lab else ({'lt', 'eq', 'gt'} - st)
+    return poss
+
+
+def eq(conds, a, b):
+    """outcome of the comparison a == b on the path (from the equality / ordering tests in either operand order), or None"""
+    p = order(conds, a, b)
+    if p == {'eq'}:
+        return True
+    if 'eq' not in p:
+        return False
     return None
 
 
 def lt(conds, a, b):
-    for (k, lab) in conds:
-        if k[0] == 'cmp' and k[1] == '<' and (k[2], k[3]) == (a, b):
-            return lab
-        if k[0] == 'cmp' and k[1] == '>=' and (k[2], k[3]) == (a, b):
-            return not lab
-        if k[0] == 'cmp' and k[1] == '>' and (k[2], k[3]) == (b, a):
-            return lab
+    p = order(conds, a, b)
+    if p == {'lt'}:
+        return True
+    if 'lt' not in p:
+        return False
     return None
 
 
